@@ -227,6 +227,8 @@ pub fn script_replay_value(monitor: &str, s: &Script, text: &str, cfg: &Cfg, f: 
 pub fn run_e1(monitor: &str, scripts: &[Script], cfg: &Cfg, factory: MonFactory<'_>, observers: &[&str]) -> E1Result {
     crate::host::install_panic_hook();
     let next = AtomicUsize::new(0);
+    let stop = std::sync::atomic::AtomicBool::new(false);
+    let known: Vec<String> = load_known().into_iter().filter(|k| k.status == "known" && k.property == monitor).map(|k| k.signature).collect();
     let results: Mutex<Vec<Option<(Stats, Vec<Violation>, Value, Value, usize)>>> = Mutex::new((0..scripts.len()).map(|_| None).collect());
     let nthreads = threads().min(scripts.len().max(1));
     std::thread::scope(|sc| {
@@ -235,6 +237,13 @@ pub fn run_e1(monitor: &str, scripts: &[Script], cfg: &Cfg, factory: MonFactory<
                 let i = next.fetch_add(1, Ordering::SeqCst);
                 if i >= scripts.len() {
                     break;
+                }
+                let past_deadline = cfg.deadline.map(|d| std::time::Instant::now() > d).unwrap_or(false);
+                if stop.load(Ordering::SeqCst) || past_deadline {
+                    let mut st = Stats::default();
+                    st.capped = Some(if past_deadline { "not explored: global time budget reached".into() } else { "not explored: stopped after a violation".into() });
+                    results.lock().unwrap()[i] = Some((st, vec![], Value::Null, Value::Null, 0));
+                    continue;
                 }
                 let s = &scripts[i];
                 let world = World::new(s, observers, "particle-1");
@@ -250,6 +259,9 @@ pub fn run_e1(monitor: &str, scripts: &[Script], cfg: &Cfg, factory: MonFactory<
                         replay: script_replay_value(monitor, s, &text, cfg, f),
                     })
                     .collect();
+                if viols.iter().any(|v| !known.contains(&v.signature) && !v.signature.starts_with("MACHINERY/")) {
+                    stop.store(true, Ordering::SeqCst);
+                }
                 // a sample: the script and the first few outcomes
                 let sample = json!({"script": text, "family": s.family, "states": ex.stats.states, "transitions": ex.stats.transitions, "distinct_runs": ex.stats.distinct_runs});
                 let outcomes: BTreeSet<(i64, u32)> = ex.cx.runs.iter().map(|r| (r.ret_code, r.out)).collect();
@@ -297,7 +309,7 @@ pub fn run_e1(monitor: &str, scripts: &[Script], cfg: &Cfg, factory: MonFactory<
             *out.ret_codes.entry(*k).or_insert(0) += v;
         }
         out.violations.extend(viols);
-        if out.samples.len() < 5 || (i % (scripts.len() / 5 + 1) == 0 && out.samples.len() < 10) {
+        if !sample.is_null() && (out.samples.len() < 5 || (i % (scripts.len() / 5 + 1) == 0 && out.samples.len() < 10)) {
             out.samples.push(sample);
         }
         merge_extra(&mut extra_acc, &extra);
@@ -318,7 +330,8 @@ pub fn e1_report(property: &str, rule: &str, res: &E1Result, cfg: &Cfg, bounds: 
     rep.cov("programs", json!(res.scripts));
     rep.cov("families", json!(res.families));
     rep.cov("closed_graphs", json!(res.closed));
-    rep.cov("capped", json!(res.capped));
+    rep.cov("capped_count", json!(res.capped.len()));
+    rep.cov("capped", json!(res.capped.iter().take(40).collect::<Vec<_>>()));
     rep.cov("exhaustive", json!(res.closed == res.scripts));
     rep.cov("quiescent_states", json!(res.total.quiescent_states));
     rep.cov("max_depth", json!(res.total.max_depth));
@@ -342,7 +355,13 @@ pub fn e1_report(property: &str, rule: &str, res: &E1Result, cfg: &Cfg, bounds: 
         "host model per avm/server: store outcome.data unconditionally, forward to next_peer_pks, answer call requests in any grouping".into(),
         "state merging on canonical decoded data is licensed by the C20 check".into(),
     ];
-    rep.violations = res.violations.clone();
+    for v in &res.violations {
+        if v.signature.starts_with("MACHINERY/") {
+            rep.machinery_errors.push(format!("{}: {}", v.signature, v.description.chars().take(300).collect::<String>()));
+        } else {
+            rep.violations.push(v.clone());
+        }
+    }
     if res.total.nontrivial == 0 {
         rep.machinery_errors.push("vacuous: the monitor saw no non-trivial case".into());
     }
